@@ -28,9 +28,10 @@ REQUIRED = ['passes_iff', 'sumVals_eq_sum', 'abs_threshold_exact', 'abs_threshol
             'quota_selector_overflow_select', 'mem_jumpers', 'jump_threshold_spec', 'openlist_no_threshold',
             'openlist_fill', 'openlist_overflow_by_votes', 'openlist_overflow_by_list', 'jumpers_nodup',
             'jumpers_sorted', 'jumpers_sub_keys', 'openlist_length_distinct', 'openlist_order',
-            'openlist_no_pass_over', 'openlist_overflow_votes_best', 'openlist_overflow_list_best',
+            'openlist_no_pass_over', 'openlist_overflow_votes_best', 'openlist_overflow_list_best', 'openlist_overflow_list_order',
             'break_by_list_only_tied', 'list_tiebreak_only_tied', 'break_by_list_nbest', 'sortByIndex_spec',
-            'list_tiebreak_plurality_tie']
+            'list_tiebreak_plurality_tie', 'list_tiebreak_no_tie', 'list_tiebreak_plurality_fits',
+            'list_tiebreak_quota_tie', 'openlist_error_iff']
 REQUIRED_COUNTERS = ['on_threshold_eq', 'on_threshold_noeq', 'decimal_threshold', 'int_threshold', 'fraction_threshold',
                      'alternative', 'bracketer', 'bracketer_property', 'openlist_jump', 'openlist_fill',
                      'openlist_overflow', 'openlist_precedence', 'openlist_no_threshold', 'openlist_tie',
@@ -261,6 +262,8 @@ def oracle_threshold(votes, t, eq, share, obs):
     out = []
     if isinstance(obs, dict):
         return [('unexpected_error', obs.get('err'))]
+    if any(isinstance(x, dict) for x in obs):
+        return [('unexpected_tie', f'a tie object in {obs} although everybody over the threshold fits')]
     got = set(obs)
     for c in votes:
         s = share(c)
@@ -360,6 +363,14 @@ def expected_tiebreak(votes, n, clist):
 
 
 def oracle(case, obs):
+    try:
+        return _oracle(case, obs)
+    except (TypeError, KeyError, ValueError, IndexError, AttributeError) as e:
+        # the observable does not have the shape of a selection result at all
+        return [('malformed_output', f'{type(e).__name__}: {e}; observed {obs!r}')]
+
+
+def _oracle(case, obs):
     op = case['op']
     if op in ('abs_threshold', 'rel_threshold'):
         votes = fvotes(case['votes'])
@@ -1020,7 +1031,7 @@ def gen_break(rng):
 
 
 def _gen(rng, tier):
-    scale = 3 if tier == 'quick' else 40
+    scale = 3 if tier == 'quick' else 100
     for _ in range(500 * scale):
         yield gen_rel_boundary(rng)
     for _ in range(250 * scale):
@@ -1053,6 +1064,7 @@ def _gen(rng, tier):
            'list_precedence': False, 'votes': [[0, '10'], [1, '20'], [2, '70']], '_types': ['i', 'i', 'i'], '_tags': ['openlist']}
     if tier == 'thorough':
         yield from _exhaustive()
+        yield from _exhaustive2()
 
 
 def _exhaustive():
@@ -1087,6 +1099,26 @@ def _exhaustive():
                                    'quota': quota, '_quota_mode': 'name', 'quota_fraction': qf,
                                    '_qftype': 'F' if qf != '1' else 'i', 'take_higher': th, 'accept_equal': eq,
                                    'list_precedence': lp, 'votes': votes, '_types': types, '_tags': ['exhaustive', 'openlist']}
+
+
+def _exhaustive2():
+    """list tie-break and quota selector, complete over small scopes"""
+    for m in range(1, 5):
+        for vals in itertools.product([0, 1, 2], repeat=m):
+            votes, types = enc_votes(list(enumerate(vals)))
+            for clist in itertools.permutations(range(m)):
+                for n in range(1, m + 1):
+                    yield {'op': 'tiebreak', 'votes': votes, '_types': types, 'n': n, 'list': list(clist),
+                           'inner': 'plurality', 'accept_equal': True, '_tags': ['exhaustive', 'tiebreak']}
+            for n in range(1, m + 1):
+                for qn in ('hare', 'droop', 'hagenbach_bischoff'):
+                    for eq in (True, False):
+                        for om in ('select', 'error'):
+                            yield {'op': 'quota_selector', 'votes': votes, '_types': types, 'n': n, 'quota': qn,
+                                   '_quota_mode': 'name', 'accept_equal': eq, 'on_more': om,
+                                   '_tags': ['exhaustive', 'quota_selector']}
+                        yield {'op': 'tiebreak', 'votes': votes, '_types': types, 'n': n, 'list': list(range(m)),
+                               'inner': qn, '_quota_mode': 'name', 'accept_equal': eq, '_tags': ['exhaustive', 'tiebreak']}
 
 
 def _posthoc_tags(c):
